@@ -331,9 +331,15 @@ func (c *Ctx) mergeStates(sts []*State, conds []string) *State {
 		}
 	}
 	for _, k := range sortedKeys(gk) {
-		t := sts[len(sts)-1].ghost[k]
+		gv := func(s *State) string {
+			if g, ok := s.ghost[k]; ok && g != "" {
+				return g
+			}
+			return "0"
+		}
+		t := gv(sts[len(sts)-1])
 		for i := len(sts) - 2; i >= 0; i-- {
-			t = c.ite(conds[i], sts[i].ghost[k], t)
+			t = c.ite(conds[i], gv(sts[i]), t)
 		}
 		ns.ghost[k] = c.def("ghost_"+k, "Int", t)
 	}
